@@ -59,9 +59,9 @@ def judge_pair(w, src, part, origin, prog=None, execute=False, files=None):
         return
     wit = {'kind': 'pair', 'origin': origin, 'files': files}
     if ka != kb:
-        # nondeterministic baseline belongs to C12: re-run once
-        ra2, rb2 = w.pipe(files, annotate=True), w.pipe(files, annotate=False)
-        if ra2.get('k') != ka or rb2.get('k') != kb:
+        # a verdict that is unstable under ONE flag is nondeterminism and belongs to C12 (every call draws fresh hash seeds): re-run five times
+        again = [(w.pipe(files, annotate=True).get('k'), w.pipe(files, annotate=False).get('k')) for _ in range(5)]
+        if any(a != ka or b != kb for a, b in again):
             part.inconc('nondeterministic-baseline'); return
         part.violation(f'verdict-differs:on={ka}:off={kb}', dict(wit, diagnostic=((ra if ka == 'err' else rb).get('errs') or [''])[0][:400]))
         return
